@@ -175,6 +175,9 @@ class dotdict_base( object ):
     def __setitem__( self, key, value ):
         """Assign a value to an item. """
         mine,rest		= self._resolve( key ) if '.' in key else (key,None)
+        if mine in self.__invalid_keys__ or mine.startswith( '__' ):
+            # Neither as a value, nor as a (newly created) level
+            raise KeyError( "A dotdict cannot support insertion of item/attribute with name {!r}".format( mine ))
         if rest:
             if '[' in mine:
                 # If indexing used in path down to target, must be pre-existing values
@@ -201,8 +204,6 @@ class dotdict_base( object ):
                 indx		= eval( indx[:-1], {'__builtins__':{}}, self )
                 super( dotdict_base, self ).__getitem__( mine )[indx] = value
             else:
-                if mine in self.__invalid_keys__ or mine.startswith( '__' ):
-                    raise KeyError( "A dotdict cannot support insertion of item/attribute with name {!r}".format( mine ))
                 super( dotdict_base, self ).__setitem__( mine, value )
 
     def __setattr__( self, key, value ):
